@@ -203,9 +203,34 @@ def make_raises(repo: Repo, decode_set: Set[str], action_set: Optional[Set[str]]
     from .excmodel import node_raises, folder
     fold = folder(repo, 'dulprovider', 'DULServiceProvider')
 
+    def known_long_enough(call, term_of, state) -> bool:
+        """``six.indexbytes(buf[:L], i)`` where L = c + <length field of buf> with c > i, on a path that established
+        ``len(buf) >= L``: the slice has L > i bytes, the index cannot be out of range"""
+        if not (len(call.args) == 2 and isinstance(call.args[1], ast.Constant) and isinstance(call.args[1].value, int)):
+            return False
+        try:
+            a = ast.parse(term_of(call.args[0]), mode='eval').body
+        except SyntaxError:
+            return False
+        if not (isinstance(a, ast.Subscript) and isinstance(a.slice, ast.Slice) and a.slice.lower is None and a.slice.upper is not None
+                and a.slice.step is None):
+            return False
+        buf, upper = ast.unparse(a.value), ast.unparse(a.slice.upper)
+        from .props.c03 import _len_buf_bound, _parse_full_length
+        parsed = _parse_full_length(upper, repo, buf=buf)
+        if parsed is None or parsed[3] <= call.args[1].value:
+            return False
+        return any(b is not None and b[0] == upper and b[1] >= 0 for b in (_len_buf_bound(c, buf) for c in state.conds))
+
     def raises_of(node, client, state):
         term_of = lambda e: client.term(e, state, heap_ext=False)
         out = list(node_raises(node, term_of, fold))
+        if 'IndexError' in out:
+            idx_calls = [c_ for c_ in calls_in(node) if term_of(c_.func) in ('six.indexbytes', 'indexbytes')]
+            others = [c_ for c_ in calls_in(node) if c_ not in idx_calls]
+            if idx_calls and all(known_long_enough(c_, term_of, state) for c_ in idx_calls) \
+                    and 'IndexError' not in [x for c_ in others for x in node_raises(c_, term_of, fold)]:
+                out = [x for x in out if x != 'IndexError']
         for call in calls_in(node):
             callee = term_of(call.func)
             if callee.endswith('.decode') and call.args and ('PDU_TYPES' in callee or callee.split('.')[0] in ('pdu_type', 'pdu_class')):
